@@ -467,6 +467,10 @@ func (h *harness) walkTie(c Case, o childOutcome) {
 	if !ok {
 		what = fmt.Sprintf("%s n=%d: the cost walk visited %d fields/spreads, the step model says %d (validation errors: %d)", c.Family, c.N, o.Res.Visits, want, o.Res.Errs)
 	}
+	// instance of the theorem C12.cost_walk_steps_chain: 3·2^n − 1 visits on the chain of n levels
+	if ok && c.Family == "cost-double-spread-chain" && c.N < 40 && o.Res.Errs == 0 && want != 3*(int64(1)<<uint(c.N))-1 {
+		ok, what = false, fmt.Sprintf("%s n=%d: the step model says %d visits, the theorem cost_walk_steps_chain says %d", c.Family, c.N, want, 3*(int64(1)<<uint(c.N))-1)
+	}
 	h.run.Oblige("cost-walk step correspondence(hook VerifCostVisits = Lean walk model)", "correspondence", 1, ok, what)
 	if !ok {
 		h.run.Violate("correspondence", what, "", true, c)
@@ -517,14 +521,36 @@ func (g *docGen) selSet(depth int, fromFrag int) string {
 // selects through `obj`.
 func (g *docGen) document() string {
 	var b strings.Builder
-	fmt.Fprintf(&b, "{ root: obj %s }\n", g.selSet(0, -1))
-	for i := 0; i < g.nfrag; i++ {
-		fmt.Fprintf(&b, "fragment F%d on Obj %s\n", i, g.selSet(1, i))
+	root := g.selSet(0, -1)
+	frags := make([]string, g.nfrag)
+	for i := range frags {
+		frags[i] = g.selSet(1, i)
+	}
+	// every fragment is used somewhere (an unused fragment makes the document invalid)
+	all := root + strings.Join(frags, " ")
+	extra := ""
+	if !g.r.Chance(1, 10) {
+		for i := range frags {
+			if !strings.Contains(all, fmt.Sprintf("...F%d ", i)) {
+				extra += fmt.Sprintf("...F%d ", i)
+			}
+		}
+	}
+	fmt.Fprintf(&b, "{ root: obj %s %s}\n", root, wrapExtra(extra))
+	for i := range frags {
+		fmt.Fprintf(&b, "fragment F%d on Obj %s\n", i, frags[i])
 	}
 	if g.r.Chance(1, 8) {
 		b.WriteString("fragment F0 on Obj { dup: x }\n") // a duplicate name: the last definition wins in fragmentsByName
 	}
 	return b.String()
+}
+
+func wrapExtra(spreads string) string {
+	if spreads == "" {
+		return ""
+	}
+	return "more: obj { " + spreads + "} "
 }
 
 func main() {
